@@ -30,30 +30,39 @@ theorem hostnameRegex_plain {s : Str} (hstar : containsCh s '*' = false) (hdot :
   exact h l hlm
 
 /-- what passing the `EnforceHostnames` block means for the host part, label by label -/
-theorem hostnameOK_shape {host w reduced : Str} {isW : Bool} (hf : HostForm host w reduced isW)
+theorem hostnameOK_shape {name host w reduced : Str} {isW : Bool} (hf : HostForm host w reduced isW)
     (hW : isW = containsCh host '*') (hw : isW = true → containsCh w '.' = false ∧ containsCh reduced '*' = false)
-    (h : hostnameOK reduced w isW = true) :
-    host = [] ∨ hostShape host ∨ (∃ w', host = w' ++ ['.'] ∧ leftWildLabel w' = true) := by
+    (hname : isW = true → name = host)
+    (h : hostnameOK name reduced w isW = true) : hostShape host := by
   unfold hostnameOK at h
   simp only [Bool.and_eq_true, Bool.or_eq_true] at h
   obtain ⟨hred, hwl⟩ := h
+  have hempty : reduced = [] → isW = true ∧ hasSuffix name ['.'] = false := by
+    intro he
+    subst he
+    simp at hred
+    exact hred
   have redLabels : reduced ≠ [] → containsCh reduced '*' = false → ∀ l ∈ labels reduced, isLabel l = true := by
     intro hne hst
-    rcases hred with he | hm
-    · exact absurd (by simpa using he) hne
-    · split at hm
-      · simp at hm
-      · rename_i c hc
-        obtain ⟨e1, e2⟩ := idnaToASCII_some hc
-        subst e1
-        exact hostnameRegex_plain hst e2 hm
+    have hne' : reduced.isEmpty = false := by
+      cases reduced with
+      | nil => exact absurd rfl hne
+      | cons _ _ => rfl
+    rw [if_neg (by simp [hne'])] at hred
+    split at hred
+    · simp at hred
+    · rename_i c hc
+      obtain ⟨e1, e2⟩ := idnaToASCII_some hc
+      subst e1
+      exact hostnameRegex_plain hst e2 hred
   rcases hf with ⟨hWf, hr⟩ | ⟨hWt, hcase⟩
   · -- not a wildcard
     subst hr
     by_cases hne : reduced = []
-    · exact Or.inl hne
-    · right; left
-      have hst : containsCh reduced '*' = false := by rw [← hW]; exact hWf
+    · have := (hempty hne).1
+      rw [hWf] at this
+      exact absurd this (by simp)
+    · have hst : containsCh reduced '*' = false := by rw [← hW]; exact hWf
       have hall := redLabels hne hst
       unfold hostShape
       cases hl : labels reduced with
@@ -69,17 +78,21 @@ theorem hostnameOK_shape {host w reduced : Str} {isW : Bool} (hf : HostForm host
       · exact hh
     have hstar : containsCh host '*' = true := by rw [← hW]; exact hWt
     rcases hcase with ⟨hr, hh⟩ | hh
-    · right; left
-      rw [hh] at hstar ⊢
+    · rw [hh] at hstar ⊢
       unfold hostShape
       rw [show labels w = [w] from splitOn_of_not_contains hwdot]
       simp only [hstar]
       exact ⟨by simpa using hlw, by simp⟩
     · by_cases hne : reduced = []
-      · right; right
-        exact ⟨w, by rw [hh, hne], hlw⟩
-      · right; left
-        have hall := redLabels hne hrst
+      · -- `<wildcard label>.`: the name ends in a dot and is refused
+        have hsfx := (hempty hne).2
+        have : hasSuffix name ['.'] = true := by
+          rw [hname hWt, hh, hne]
+          unfold hasSuffix
+          exact List.isSuffixOf_iff_suffix.mpr ⟨w, rfl⟩
+        rw [this] at hsfx
+        exact absurd hsfx (by simp)
+      · have hall := redLabels hne hrst
         unfold hostShape
         have : labels host = w :: labels reduced := by
           rw [hh, labels_append, show labels w = [w] from splitOn_of_not_contains hwdot]; rfl
